@@ -1110,6 +1110,11 @@ func (g *JSGen) Stmt(depth int) string {
 			t := g.tag()
 			return fmt.Sprintf("try { %s.catch(() => {}); p(%d, \"returned a promise\"); } catch (e) { p(%d, \"threw synchronously\", e); }\n", form, t, t)
 		}
+		if r.Chance(1, 15) {
+			// a function-level directive prologue: must stay a directive whatever the line limit / quote style
+			g.stat("function-level-directive")
+			return g.probe("(function () { "+pick(r, "\"use strict\"", "'use strict'", "\"use strict\"; \"another directive that is rather long\"")+"; return this === undefined; })()") + ";\n"
+		}
 		// function declaration (hoisted in its scope: only called after this point)
 		n := g.fresh()
 		ar := r.Intn(3)
